@@ -83,7 +83,7 @@ func (a1 jsonMultiset) diff(
 		}
 		return append(d, e)
 	}
-	if strategy == mergePatchStrategy && !a1.Equals(n) {
+	if strategy == mergePatchStrategy && !a1.Equals(n, options...) {
 		e := DiffElement{
 			Metadata: Metadata{
 				Merge: true,
